@@ -12,9 +12,12 @@ props = [c['property_id'] for c in json.load(open('/verif/MANIFEST.json'))['chec
 rc, st = sh('git status --short', '/repo'); assert st.strip() == '', '/repo dirty'
 for diff in sorted(glob.glob(d + '/*.diff')):
     rc, out = sh(f'git apply --check {diff}', '/repo')
+    threeway = False
+    if rc != 0:
+        rc, out = sh(f'git apply --3way --check {diff}', '/repo'); threeway = rc == 0
     if rc != 0:
         print(os.path.basename(diff), 'DOES NOT APPLY'); continue
-    sh(f'git apply {diff}', '/repo')
+    sh(f'git apply {"--3way " if threeway else ""}{diff}', '/repo')
     try:
         rcb, outb = sh('go build ./...', '/repo')
         bad = []
@@ -24,7 +27,7 @@ for diff in sorted(glob.glob(d + '/*.diff')):
                 lines = [l for l in out.splitlines() if l.startswith(('VIOLATION','BROKEN','ANALYSIS')) or '[' in l and ']' in l and ':' in l and not l.startswith(p+' ')]
                 bad.append((p, rc, lines[:6]))
     finally:
-        sh('git checkout -q -- . && git clean -fdq', '/repo')
+        sh('git reset -q --hard HEAD && git clean -fdq', '/repo')
     print(os.path.basename(diff), 'build_ok' if rcb == 0 else 'BUILD FAILS', 'ALL CHECKS PASS' if not bad else '')
     for p, rc, lines in bad:
         print('   ', p, 'exit', rc)
